@@ -125,5 +125,6 @@ static inline int fd_readable_mask(int fd)
 }
 
 void env_register_events(void);
+void det_rand_install(uint64_t seed);
 
 #endif
